@@ -26,7 +26,7 @@ from drivers import websession_exec as X
 from drivers import websession_text as TX
 
 CLAUSES = {1: 'Delivered', 2: 'TargetOK', 3: 'OneHostOK', 4: 'AuthOK', 5: 'CookieOK', 6: 'RefererOK',
-           7: 'WellFormed', 8: 'BoundOK', 9: 'EndsOK'}
+           7: 'WellFormed', 8: 'BoundOK', 9: 'EndsOK', 10: 'TunnelOK'}
 FIX_COPY = os.environ.get('VERIF_C16_FIX_COPY', 'TRUE')
 REDIRECTS = (301, 302, 303, 307, 308)
 
@@ -149,14 +149,14 @@ MON_CFG = 'SPECIFICATION MSpec\nCONSTRAINT Record\nPOSTCONDITION Post\nCHECK_DEA
 
 
 MON_KEYS = {'send': ('e', 'at', 'exp', 'target', 'method', 'hosts', 'auth', 'cookies', 'referer', 'nreferer', 'refcred', 'wf', 'proxied'),
-            'recv': ('e', 'status', 'loc'), 'outcome': ('e', 'v')}
+            'recv': ('e', 'status', 'loc'), 'outcome': ('e', 'v'), 'tunnel': ('e', 'target', 'hosts', 'wf')}
 STRICT_KEYS = {'send': ('e', 'curl', 'ahosts', 'auth', 'cookies', 'referer'),
                'recv': ('e', 'status', 'loc', 'locurl', 'setcookie'), 'outcome': ('e', 'v')}
 
 
 def slim(t, keys, top):
     d = {k: t[k] for k in top if k in t}
-    d['ev'] = [{k: e[k] for k in keys[e['e']] if k in e} for e in t['ev']]
+    d['ev'] = [{k: e[k] for k in keys[e['e']] if k in e} for e in t['ev'] if e['e'] in keys]
     return d
 
 
